@@ -224,7 +224,7 @@ u_table(uint64_t idx, void *arg)
 void
 harness_run(void)
 {
-    uint64_t ntables = vh_tier ? 6000 : 400;
+    uint64_t ntables = vh_tier ? 60000 : 400;
     for (uint64_t i = 0; i < ntables; i++)
         vh_unit("table", i, u_table, NULL);
     static const char *req[] = { "read: zero length", "read: fully mapped and readable",
